@@ -339,11 +339,16 @@ pub struct MsgMonitor {
     probes: BTreeMap<String, u64>,
     seen_msgs: usize,
     check_conserve: bool,
+    check_fifo: bool,
 }
 
 impl MsgMonitor {
     pub fn new(prop: &'static str) -> MsgMonitor {
-        MsgMonitor { prop, stage: BTreeMap::new(), probes: BTreeMap::new(), seen_msgs: 0, check_conserve: true }
+        MsgMonitor { prop, stage: BTreeMap::new(), probes: BTreeMap::new(), seen_msgs: 0, check_conserve: true, check_fifo: true }
+    }
+    /// For scenarios whose integer payloads do not encode (sender, sequence).
+    pub fn new_without_fifo(prop: &'static str) -> MsgMonitor {
+        MsgMonitor { prop, stage: BTreeMap::new(), probes: BTreeMap::new(), seen_msgs: 0, check_conserve: true, check_fifo: false }
     }
     fn probe(&mut self, k: &str) {
         *self.probes.entry(k.to_string()).or_insert(0) += 1;
@@ -558,7 +563,7 @@ impl Monitor for MsgMonitor {
                 }
             }
             // in-transit FIFO per (target, sender): mailbox (front..back), then DeliverMessage, then DeliverAction
-            for ((target, sender), mut items) in transit {
+            for ((target, sender), mut items) in transit.into_iter().filter(|_| self.check_fifo) {
                 items.sort_by_key(|(st, _)| std::cmp::Reverse(*st));
                 // stable sort keeps queue order inside a stage
                 let seqs: Vec<u64> = items.iter().map(|(_, q)| *q).collect();
